@@ -1546,6 +1546,12 @@ fn gen_install(rng: &mut Rng, info: &FontInfo, prop: &str) -> Option<(FontInfo, 
         "C09" => 0,
         _ => 15,
     };
+    let p_cvar = match prop {
+        "C02" => 0,
+        "C03" => 8,
+        "C09" => 30,
+        _ => 25,
+    };
     let p_cff2_subrs = match prop {
         "C02" => 0,
         "C03" => 15,
@@ -1641,6 +1647,12 @@ fn gen_install(rng: &mut Rng, info: &FontInfo, prop: &str) -> Option<(FontInfo, 
             chars.sort_unstable();
             focus = Some(chars);
         }
+    }
+    if info.axes > 0 && info.has("glyf") && !info.has("cvar") && rng.pct(p_cvar) {
+        surgeries.push(Surgery::InstallCvar {
+            num_cvts: *rng.pick(&[1u16, 2, 7, 64, 130, 400]),
+            variant: rng.next_u64() >> 8,
+        });
     }
     if info.has("CFF2") && rng.pct(p_cff2_subrs) {
         let n = 1 + rng.usize_below(12);
